@@ -40,6 +40,7 @@ structure Safe (s : State) : Prop where
   half_reg : ∀ id, s.apc id = .half → s.reg id = true
   c_pos : s.waitCount ≠ 0 → ∃ id, s.waitTok id = true
   seq_quiet : PreTok s.hs → s.q = [] ∧ s.tok = none ∧ s.waitCount = 0
+  no_stale : ∀ id, s.stale id = false
 
 theorem safe_init (r : Role) : Safe (init r) := by
   constructor <;> simp [init, PastRecv, TokPhase, PreTok, noMain]
@@ -58,8 +59,8 @@ theorem noMain_tail (t : Tag) (q : List Tag) (h : noMain (t :: q) = true) : noMa
 token capacity one, sequential establishments). -/
 theorem safe_step (P : Params) (hP : P.Good) (s s' : State) (e : Event) (h : Safe s) (hs : step P s e = some s') :
     Safe s' := by
-  obtain ⟨hR, hC, hS, hH⟩ := hP
-  obtain ⟨a1, a2, a3, a4, a5, a6, a7, a8, a9, a10, a11, a12, a13, a14, a15, a16, a17, a18, a19, a20, a21⟩ := h
+  obtain ⟨hR, hC, hS, hH, hK⟩ := hP
+  obtain ⟨a1, a2, a3, a4, a5, a6, a7, a8, a9, a10, a11, a12, a13, a14, a15, a16, a17, a18, a19, a20, a21, a22⟩ := h
   cases e with
   | acceptBegin id =>
     simp only [step] at hs
@@ -205,6 +206,17 @@ theorem safe_step (P : Params) (hP : P.Good) (s s' : State) (e : Event) (h : Saf
   | xAcceptUnparked =>
     simp only [step, hH, Bool.or_true, if_true] at hs
     split at hs <;> simp at hs
+  | dialGiveUp =>
+    simp only [step, stepStale] at hs
+    split at hs
+    · next id hh =>
+      simp only [Option.some.injEq, hK, if_true] at hs; subst hs
+      have hq := a21 ⟨id, Or.inr (Or.inl hh)⟩
+      constructor <;> simp only [] <;> (try assumption) <;> grind [TokPhase, PastRecv, PreTok, noMain]
+    · simp at hs
+  | kRecvStale id =>
+    simp only [step, stepStale, a22 id] at hs
+    simp at hs
   | lAccept id =>
     simp only [step] at hs
     split at hs
